@@ -518,7 +518,15 @@ def comments(repo, rep, rule):
     w.it.eager_generators = {g_.name for g_ in repo.module('utils').funcs.values()}
     bad, und = [], []
     ok = 0
-    for text in COMMENT_TEXTS:
+    # comment texts with more words than every size constant the comment builder compares against (and than a fixed small count)
+    from . import shape as _S
+    counts, mined = _S.scaled_counts(repo, f)
+    rep.note('comment builder: size constants %s; word counts %s' % ({k: v[:1] for k, v in mined.items()} or 'none', counts))
+    scaled = []
+    for c_ in counts:
+        scaled.append(' '.join('w%d' % i for i in range(c_ + 1)))
+        scaled.append(' '.join('w%d' % i for i in range(c_ + 1)) + '\nsecond ' + ' '.join('v%d' % i for i in range(c_)))
+    for text in COMMENT_TEXTS + scaled:
         try:
             doc = w.call(m, 'commentdoc', [Const(text)])
             layouts = denote_fill(w.term_of(doc))
@@ -540,7 +548,10 @@ def comments(repo, rep, rule):
                 break
             got_words = ' '.join(ln[1:] for ln in lines).split()
             if got_words != words:
-                problem = 'the layout %r shows the words %s, the comment text has %s' % (lay, got_words, words)
+                k_ = next((j for j, (x_, y_) in enumerate(zip(got_words, words)) if x_ != y_), min(len(got_words), len(words)))
+                problem = ('the layout %r shows the words %s, the comment text has %s' % (lay, got_words, words)) if len(words) < 12 else (
+                    'a layout of the comment shows %d words where the text has %d: from word %d on it has %s where the text has %s'
+                    % (len(got_words), len(words), k_, got_words[k_:k_ + 3], words[k_:k_ + 3]))
                 break
             if len(lines) < len(src_lines):
                 problem = 'the layout %r has %d lines for a comment text of %d lines' % (lay, len(lines), len(src_lines))
@@ -548,7 +559,7 @@ def comments(repo, rep, rule):
             if any(ln != ln.rstrip() and ln.strip() == '#' for ln in lines):
                 pass
         if problem:
-            bad.append('commentdoc(%r): %s' % (text, problem))
+            bad.append('commentdoc(%s): %s' % (repr(text) if len(text) < 60 else repr(text[:40]) + '... (%d words)' % len(words), problem))
         else:
             ok += 1
     # the empty text is rejected (every call site tests the comment for truthiness first)
